@@ -70,12 +70,31 @@ MkShared(par) ==
       runs |-> IF order = "ab" THEN <<ra, rb, rl, ra>> ELSE <<rb, ra, rb, rl>>,
       tag |-> "shared|" \o order \o (IF ext THEN "|ext" ELSE "|imp")]
 
-MkC(par) == CASE par[1] = "shared" -> MkShared(par) [] par[1] = "tree" -> MkTree(par) [] par[1] = "params" -> MkParams(par) [] par[1] = "content" -> MkContent(par)
+\* a template without definitions of its own takes its block table from two sources (extends + import, or two
+\* imports); building it must not write into the tables of the cached layout / library
+MkAlias(par) ==
+  LET order == par[2]
+      base   == Tm("root", "", <<>>, <<Def("root", "b1"), T("R("), YieldS("y1", "b1", <<>>, NoE), T(")")>>)
+      theme  == Tm("i1", "", <<>>, <<Def("i1", "b1")>>)
+      theme2 == Tm("i2", "", <<>>, <<Def("i2", "b1"), Def("i2", "b2")>>)
+      themed == Tm("leaf", "root", <<"i1">>, <<T("leaf:junk")>>)
+      plain  == Tm("mid", "root", <<>>, <<T("mid:junk")>>)
+      twoimp == Tm("other", "", <<"i1", "i2">>, <<T("O("), YieldS("y1", "b1", <<>>, NoE), YieldS("y2", "b2", <<>>, NoE), T(")")>>)
+      rn(n) == RunR(n, NoVarsMap, "D")
+  IN [ts |-> <<themed, plain, base, theme, theme2, twoimp>>, globals |-> NoVarsMap,
+      runs |-> (CASE order = 1 -> <<rn("leaf"), rn("root"), rn("mid"), rn("leaf")>>
+                 [] order = 2 -> <<rn("mid"), rn("leaf"), rn("root"), rn("mid")>>
+                 [] order = 3 -> <<rn("root"), rn("leaf"), rn("mid"), rn("root")>>
+                 [] order = 4 -> <<rn("other"), rn("i1"), rn("i2"), rn("other"), rn("leaf"), rn("root")>>),
+      tag |-> "alias|" \o ToString(order)]
+
+MkC(par) == CASE par[1] = "alias" -> MkAlias(par) [] par[1] = "shared" -> MkShared(par) [] par[1] = "tree" -> MkTree(par) [] par[1] = "params" -> MkParams(par) [] par[1] = "content" -> MkContent(par)
 
 FileSet == {"leaf", "mid", "root", "i1", "i2", "i3"}
 cParams == ({"tree"} \X (0..2) \X (0..2) \X (SUBSET FileSet) \X {{}, {"leaf"}, {"root"}, {"i2", "mid"}} \X
               {"yield", "defsite", "inrange", "inblock", "incontent"})
       \cup ({"params"} \X Perms({"a", "b", "c"}) \X {"import", "extends"})
       \cup ({"shared"} \X {"ab", "ba"} \X BOOLEAN)
+      \cup ({"alias"} \X (1..4))
       \cup ({"content"} \X {"caller", "none", "defsite"} \X BOOLEAN)
 =============================================================================
